@@ -165,14 +165,42 @@ def run(ctx):
     pool.shutdown()
     distinct = len({vlib.sha(h[0].get("cfg")) + vlib.sha([e.get("op") for e in h[1:]]) for h in hists if nontrivial(h)})
     calls = {}
-    retried = 0
-    failed_dl = 0
+    seen = {"retried_requests": 0, "fetches_saved_by_the_second_url": 0, "download_runs_with_failures": 0,
+            "getfile_fetched": 0, "getfile_fetch_failed": 0, "getfile_local": 0, "index_rounds_all_failed": 0,
+            "restarts_with_stored_index": 0, "upgrade_signals_raised": 0, "calls_with_cancelled_context": 0,
+            "concurrent_pairs_both_fetching": 0, "blacklist_accepted": 0, "files_fetched_by_download_runs": 0}
     for h in hists:
+        up = 0
         for e in h[1:]:
-            calls[e["op"]["op"]] = calls.get(e["op"]["op"], 0) + 1
-            reqs = e["obs"]["reqs"]
-            retried += sum(1 for a, b in zip(reqs, reqs[1:]) if (a["k"], a["a"], a["v"]) == (b["k"], b["a"], b["v"]))
-            failed_dl += 1 if e["obs"]["upd"]["dlErr"] and e["op"]["op"] == "Download" else 0
+            o, r, ob = e["op"], e["res"], e["obs"]
+            calls[o["op"]] = calls.get(o["op"], 0) + 1
+            reqs = ob["reqs"]
+            same = [(a["k"], a["a"], a["v"]) == (b["k"], b["a"], b["v"]) for a, b in zip(reqs, reqs[1:])]
+            seen["retried_requests"] += sum(same)
+            if o["op"] == "Download":
+                seen["download_runs_with_failures"] += 1 if ob["upd"]["dlErr"] and ob["notes"] and ob["notes"][-1]["upd"]["dlAt"] != ob["notes"][0]["upd"]["dlAt"] else 0
+                seen["files_fetched_by_download_runs"] += len({(q["a"], q["v"]) for q in reqs})
+            if o["op"] == "GetFile":
+                key = "getfile_fetch_failed" if r["err"] == "fetch" else "getfile_fetched" if (r["err"] == "" and reqs) else \
+                      "getfile_local" if r["err"] == "" else None
+                if key:
+                    seen[key] += 1
+                if r["err"] == "" and len(reqs) >= 2 and reqs[-1]["u"] != reqs[0]["u"]:
+                    seen["fetches_saved_by_the_second_url"] += 1
+            if o["op"] == "UpdateIndexes" and r["err"] == "failed":
+                seen["index_rounds_all_failed"] += 1
+            if o["op"] == "Restart":
+                up = 0
+                seen["restarts_with_stored_index"] += 1 if any(t > 0 for t in ob["idxdisk"]) else 0
+            if o["op"] == "Blacklist" and r["err"] == "":
+                seen["blacklist_accepted"] += 1
+            if o.get("mode") == "cancelled":
+                seen["calls_with_cancelled_context"] += 1
+            if o["op"] == "Par" and len({q["k"] + str(q["a"]) + "." + str(q["v"]) for q in reqs}) >= 2 and len(ob["notes"]) > 5:
+                seen["concurrent_pairs_both_fetching"] += 1
+            n = sum(1 for x in ob["handles"] if x["up"])
+            seen["upgrade_signals_raised"] += max(0, n - up)
+            up = n
     vlib.finish(ctx, LEVEL, {
         "states": sum(m["states"] for m in mc.values()), "transitions": sum(m["transitions"] for m in mc.values()),
         "traces_validated_against_impl": accepted,
@@ -183,7 +211,7 @@ def run(ctx):
                 "non-trivial = an index was accepted and stored and a server was asked for a resource file; distinct by "
                 "content hash of configuration and calls",
         "histories_run": len(hists), "events_validated": nevents, "calls": calls,
-        "retried_requests": retried, "download_runs_with_failures": failed_dl,
+        "situations_seen": seen,
         "model_checking": mc,
         "samples": scripts[:2],
         "exhaustive": False,
